@@ -319,6 +319,77 @@ void vf_harness(void) { Array_dup(); VF_CANARY(); }
 )
 UNITS += [dup_unit]
 
+# ---- Array::sort() = quicksort(T*, n) (foreach1.h): on every int array of up to 5 elements the result is the sorted permutation of the input and every access is in range
+F1 = 'include/asl/foreach1.h'
+def ref_local_rule(text):
+    """`const T& NAME = EXPR;` (a C++ reference to an element) -> `const T* NAME_p = &(EXPR);` and NAME -> (*NAME_p) afterwards: a reference keeps following the element"""
+    import re
+    m = re.search(r'const T&\s*(\w+)\s*=\s*([^;]+);', text)
+    if not m:
+        return text, 0
+    n = m.group(1)
+    rest = re.sub(r'\b%s\b' % n, '(*%s_p)' % n, text[m.end():])
+    return text[:m.start()] + 'const T* %s_p = &(%s);' % (n, m.group(2)) + rest, 1
+sort_unit = Unit(
+    'Array_sort_partition', 'C01',
+    cuts=[Cut('qs', F1, r'^void quicksort\(T\* a, int n\)\s*$', rules=[ref_local_rule, (r'swap\(\*l\+\+, \*r--\);', '{ T vf_t = *l; *l = *r; *r = vf_t; l++; r--; }', 1),
+                                                                       (r'quicksort\((\w+), int\(([^;]*?)\)\);', r'REC(\1, (int)(\2));', 2)])],
+    text=r"""
+#include "vf_base.h"
+typedef int T;
+#define NQ 6
+int nondet_int(void);
+T g_a[NQ]; int g_n, g_calls, g_lo_len, g_hi_off, g_hi_len;
+/* the recursive calls, by their contract (this same unit, on a strictly shorter range): each sorts its range in place */
+static void REC(T* p, int m) { __CPROVER_assert(p >= g_a && m >= 0 && p + m <= g_a + g_n, "the recursive call stays inside the array"); __CPROVER_assert(m < g_n, "on a strictly shorter range (termination)");
+  if (g_calls == 0) { __CPROVER_assert(p == g_a, "first the lower part"); g_lo_len = m; } else { g_hi_off = (int)(p - g_a); g_hi_len = m; } g_calls++; }
+static void quicksort(T* a, int n) @@qs@@
+void vf_harness(void) {
+  T b[NQ]; g_n = nondet_int(); __CPROVER_assume(2 <= g_n && g_n <= NQ);
+  for (int i = 0; i < NQ; i++) { g_a[i] = nondet_int(); b[i] = g_a[i]; }
+  T pivot = b[g_n / 2];
+  quicksort(g_a, g_n);
+  __CPROVER_assert(g_calls == 2 && g_hi_off + g_hi_len == g_n && g_lo_len <= g_hi_off, "two recursive calls: a lower part from the start and an upper part to the end, not overlapping");
+  int k = nondet_int(); __CPROVER_assume(0 <= k && k < g_n);
+  __CPROVER_assert(k >= g_lo_len || g_a[k] <= pivot, "lower part: nothing above the pivot VALUE (the value the middle element had on entry)");
+  __CPROVER_assert(k < g_hi_off || g_a[k] >= pivot, "upper part: nothing below the pivot value");
+  __CPROVER_assert(k < g_lo_len || k >= g_hi_off || g_a[k] == pivot, "between them: the pivot value");
+  T v = nondet_int(); int before = 0, after = 0; for (int i = 0; i < NQ; i++) if (i < g_n) { before += (b[i] == v); after += (g_a[i] == v); }
+  __CPROVER_assert(before == after, "the pass permutes the elements");
+  VF_CANARY();
+}
+""",
+    entry=None, unwind=9, floor=5, expect=['assertion'], kind='bounded', bound='int arrays of 2..6 elements (all orders, all values, duplicates); one partition pass, the two recursive calls by contract', timeout=600,
+    desc='quicksort(T*, n) behind Array::sort(), one pass: partitions around the VALUE of the middle element, permutes, every pointer in range, recursive calls on strictly shorter disjoint ranges '
+         '(sortedness of the whole follows by induction on the length)',
+    functions=['quicksort(T*, int) (Array::sort)'],
+)
+
+# ---- slice(i1, i2): "returns a section of the array" as an INDEPENDENT array - also when the section is the whole array
+slice_unit = Unit(
+    'Array_slice', 'C01',
+    cuts=[Cut('sl', A, r'^\tArray slice\(int i1, int i2=0\) const\s*$',
+              rules=[(r'(?<![\w.>])length\(\)', 'g_n', None), (r'Array b\(i2-i1\);', 'NEW_ARRAY(i2 - i1);', None), (r'for \(int i=i1; i<i2; i\+\+\)\s*b\[i-i1\] = _a\[i\];', 'COPY_RANGE(i1, i2);', None),
+                     (r'return b;', '{ g_ret_new = 1; return; }', None), (r'return \*this;', '{ g_ret_shared = 1; return; }', None)])],
+    text=r'''
+#include "vf_base.h"
+int g_n, g_new_len, g_from, g_to, g_ret_new, g_ret_shared;
+static void NEW_ARRAY(int n) { __CPROVER_assert(n >= 0, "Array(n): n >= 0"); g_new_len = n; }
+static void COPY_RANGE(int i1, int i2) { __CPROVER_assert(0 <= i1 && i2 <= g_n && i2 - i1 <= g_new_len, "elements i1..i2 exist and fit the new array"); g_from = i1; g_to = i2; }
+void Array_slice(int i1, int i2)
+__CPROVER_requires(0 <= g_n && g_n <= 1000000 && 0 <= i1 && i1 <= g_n && (i2 == 0 || (i1 <= i2 && i2 <= g_n)) && g_new_len == -1 && g_ret_new == 0 && g_ret_shared == 0)
+/* always a new array holding copies of elements [i1, i2) (i2 == 0 means up to the end); never a second handle on the source storage */
+__CPROVER_ensures(g_ret_new == 1 && g_ret_shared == 0 && g_from == i1 && g_to == (i2 == 0 ? g_n : i2) && g_new_len == g_to - g_from)
+__CPROVER_assigns(g_new_len, g_from, g_to, g_ret_new, g_ret_shared)
+@@sl@@
+void vf_harness(void) { int a, b; Array_slice(a, b); VF_CANARY(); }
+''',
+    entry='Array_slice', kind='proof',
+    desc='Array::slice(i1, i2) for every length and range: a new array of i2-i1 elements copied from [i1, i2); never the source storage itself',
+    functions=['Array::slice'], trusted=['Array(n) and the element copy loop abstracted to events (C01 units)'],
+)
+UNITS += [sort_unit, slice_unit]
+
 # replay: where the trace recipe of a unit does not reproduce (or there is none) the driver's battery runs on the real library: Array<String> (heap payloads) and a counting
 # element type, every n <= 9: insert(k, x / a[src]), a << a[src], append(a), remove(i, c), resize, copy / assign / self-assign / clone, against std::vector
 _bat = replay.battery('C01/driver.cpp', ['battery'])
